@@ -217,9 +217,32 @@ func genJSONDoc(g *Gen, n int, strict bool) []*jv {
 		seen[k] = true
 		root.fields = append(root.fields, genJCol(g, k, 2))
 	}
+	// regime change inside the preview: from row `sw` on some columns disappear, appear or change their kinds
+	after := &jcol{fields: append([]*jcol(nil), root.fields...)}
+	sw := n + 1
+	if g.Chance(1, 2) && n > 1 {
+		sw = 1 + g.Intn(min(n, 100)-1)
+		for i := range after.fields {
+			switch g.Intn(4) {
+			case 0:
+				c := *after.fields[i]
+				c.present = 0
+				after.fields[i] = &c
+			case 1:
+				after.fields[i] = genJCol(g, after.fields[i].name, 2)
+			}
+		}
+		if g.Chance(1, 3) {
+			after.fields = append(after.fields, genJCol(g, "late", 1))
+		}
+	}
 	rows := make([]*jv, n)
 	for i := range rows {
-		rows[i] = root.object(g, root.fields)
+		if i < sw {
+			rows[i] = root.object(g, root.fields)
+		} else {
+			rows[i] = after.object(g, after.fields)
+		}
 		if !strict && i >= 100 && g.Chance(1, 8) && len(root.fields) > 0 {
 			row := rows[i]
 			switch g.Intn(3) {
@@ -358,14 +381,35 @@ func genCSVDoc(g *Gen, n int, late bool) *csvDoc {
 	}
 	ncols := 1 + g.Intn(4)
 	kinds := make([]int, ncols)
+	used := map[string]bool{}
 	for i := range kinds {
 		kinds[i] = genCsvKinds(g)
-		d.names = append(d.names, Pick(g, csvNames))
+		name := Pick(g, csvNames)
+		// a repeated column name is an error at schema time: keep it rare
+		for used[name] && !g.Chance(1, 12) {
+			name = Pick(g, csvNames) + strconv.Itoa(g.Intn(50))
+		}
+		used[name] = true
+		d.names = append(d.names, name)
+	}
+	// regime change inside the preview: from row `sw` on some columns change their kinds (widening rules late in the preview)
+	sw := n + 1
+	kindsAfter := append([]int(nil), kinds...)
+	if g.Chance(1, 2) && n > 1 {
+		sw = 1 + g.Intn(min(n, 100)-1)
+		for i := range kindsAfter {
+			if g.Chance(1, 2) {
+				kindsAfter[i] = genCsvKinds(g)
+			}
+		}
 	}
 	for r := 0; r < n; r++ {
 		row := make([]string, ncols)
 		for i := range row {
 			k := kinds[i]
+			if r >= sw {
+				k = kindsAfter[i]
+			}
 			if late && r >= 100 && g.Chance(1, 10) {
 				k = Pick(g, []int{cEmpty, cInt, cFloat, cBool, cTime, cStr, cOdd})
 			}
